@@ -20,10 +20,11 @@ func init() {
 	vRegister("vC19_book", vC19_book)
 	vRegister("vC19_claim", vC19_claim)
 	vRegister("vC19_ttl", vC19_ttl)
+	vRegister("vC19_cron", vC19_cron)
 }
 
 // ---------------------------------------------------------------------------------------------
-// quartz stand-in: an idempotent keyed job set (timing is go-quartz's business and outside the claim)
+// quartz stand-in: a keyed job set that refuses duplicate keys like go-quartz (timing is go-quartz's business and outside the claim)
 // ---------------------------------------------------------------------------------------------
 type vC19Quartz struct {
 	keys    [4]*quartz.JobKey
@@ -47,6 +48,9 @@ func (q *vC19Quartz) Start(context.Context) {}
 func (q *vC19Quartz) IsStarted() bool       { return true }
 func (q *vC19Quartz) ScheduleJob(d *quartz.JobDetail, t quartz.Trigger) error {
 	i := q.find(d.JobKey())
+	if i >= 0 {
+		return quartz.ErrJobAlreadyExists // like go-quartz: a key that is still queued is refused, the queued job stays
+	}
 	if i < 0 {
 		for j := 3; j >= 0; j-- {
 			if !q.present[j] {
@@ -158,7 +162,10 @@ func vC19_book() {
 			} else {
 				err = s.Schedule(&vC19Msg{k}, target, time.Second, WithReference(ref))
 			}
-			if started {
+			if started && live[r] {
+				vAssert(err != nil, "registering a reference that is still scheduled is refused")
+				vCover("duplicate-refused")
+			} else if started {
 				vAssert(err == nil, "scheduling on a started scheduler succeeds")
 				live[r], paused[r] = true, false
 				vCover("scheduled")
@@ -211,6 +218,10 @@ func vC19_book() {
 			}
 			vAssert(len(infos) == n, "ListSchedules lists exactly the live schedules")
 		}
+		// the reference operated on stays manageable exactly while its job is scheduled
+		_, knownR := s.scheduledKeys.Get(ref)
+		vAssert(knownR == live[r], "a reference stays known to cancel/pause/resume exactly while its job is scheduled (a refused duplicate registration does not orphan the running job)")
+		vAssert((q.find(quartz.NewJobKey(ref)) >= 0) == live[r], "a job is queued exactly for a live reference")
 		// the other reference is never affected
 		o := 1 - r
 		_, known := s.scheduledKeys.Get(vC19_ref(o))
@@ -256,6 +267,8 @@ var (
 	vC19_regN       int
 	vC19_regFail    bool
 	vC19_errStorage = errors.New("verif: storage failure")
+
+	vC19_otherFormats bool
 )
 
 func vC19_regPut(key string) error {
@@ -274,6 +287,9 @@ func vC19_regPut(key string) error {
 
 // substituted for fmt.Sprintf in this entry: exact for the one format and the two tick times that occur (asserted)
 func vC19_sprintf(format string, a ...any) string {
+	if vC19_otherFormats && (format != scheduleFireClaimKeyFormat || len(a) != 2) {
+		return "verif-other-text" // descriptions etc. formatted by go-quartz constructors (vC19_cron only)
+	}
 	vAssert(format == scheduleFireClaimKeyFormat && len(a) == 2, "only the claim key is formatted (harness sanity)")
 	ref, _ := a[0].(string)
 	rt, _ := a[1].(int64)
@@ -293,6 +309,7 @@ func vC19_tick(i int) int64 {
 
 func vC19_claim() {
 	N := vCase("nodes")
+	vC19_otherFormats = false
 	cluster.VC19Put = vC19_regPut
 	vC19_regN, vC19_regFail = 0, false
 	ttl := time.Duration(vNondetInt64("ttl"))
@@ -397,6 +414,52 @@ func vC19_ttl() {
 	if !tr.err1 && !tr.err2 && tr.second-tr.first >= int64(time.Minute) && tr.second-tr.first <= int64(24*time.Hour) && tr.second >= tr.first {
 		vAssert(int64(d) == tr.second-tr.first, "inside the bounds the ttl is the trigger period")
 		vCover("period")
+	}
+	vCover("end")
+}
+
+// ---------------------------------------------------------------------------------------------
+// registration: the real ScheduleWithCron on a node whose cluster engine is wired but whose actor system has not
+// finished starting must still register a CLAIMING schedule (go-quartz's cron parser is substituted: a trigger
+// firing every minute). The registered job is then fired twice for the same tick (two handlings racing on the
+// shared registry): at most one delivery.
+// ---------------------------------------------------------------------------------------------
+// substituted for quartz.NewCronTriggerWithLoc
+func vC19_newCron(expression string, location *time.Location) (*quartz.CronTrigger, error) {
+	return &quartz.CronTrigger{}, nil
+}
+
+// substituted for (*quartz.CronTrigger).NextFireTime
+func vC19_cronNext(ct *quartz.CronTrigger, prev int64) (int64, error) {
+	return prev + int64(time.Minute), nil
+}
+
+func vC19_cron() {
+	vC19_otherFormats = true
+	cluster.VC19Put = vC19_regPut
+	vC19_regN, vC19_regFail = 0, false
+	sys := &actorSystem{noSender: &PID{}}
+	sys.cluster = cluster.VC19NewCluster(true)
+	if vNondetBool("systemStarted") {
+		sys.started.Store(true)
+		sys.clusterEnabled.Store(true)
+	}
+	q := &vC19Quartz{}
+	s := vC19_newScheduler(sys, q, true)
+	target := &PID{}
+	err := s.ScheduleWithCron(&vC19Msg{1}, target, "0 * * * * *", WithReference("cron-1"))
+	vAssert(err == nil, "a cron schedule with an explicit reference is accepted in cluster mode")
+	j := q.find(quartz.NewJobKey("cron-1"))
+	vAssert(j >= 0, "the cron job is queued")
+	told := 0
+	for k := 0; k < 2; k++ {
+		vC19_tells, vC19_tellErr = 0, nil
+		_ = q.jobs[j].Execute(&vC19Ctx{hasMeta: true, runTime: vC19_tick(0)})
+		told += vC19_tells
+	}
+	vAssert(told <= 1, "a cron schedule registered while the cluster engine is wired claims its ticks: one tick handled twice is delivered at most once")
+	if told == 1 {
+		vCover("delivered-once")
 	}
 	vCover("end")
 }
